@@ -76,6 +76,47 @@ def run(ctx):
             b = bytearray(bytes(rng.below(256) for _ in range(rng.below(70))))
         lines.append('FRM %d %s,%s' % (len(lines), KEEPALIVE.hex(), bytes(b).hex() or '-'))
         meta.append(('junk',))
+    # 5. through the socket: Connection::read_frame until the close.  All messages coalesced into one write (and the close straight
+    #    behind it), every split point, one-octet writes, random partitions; streams cut inside a message; junk behind good messages
+    def sck(mode, chunks, tag):
+        chunks = [c for c in chunks if c]
+        lines.append('SCK %d %s %s' % (len(lines), mode, ','.join(c.hex() for c in chunks) or '-'))
+        meta.append(tag)
+    sck('a', [], ('sck', [], 'EOF'))
+    for k in (1, 2, 3, 4):
+        for _ in range(3 if quick else 40):
+            ms = [rng.choice(msgs_pool) for _ in range(k)]
+            stream = b''.join(ms)
+            sck('a', [stream], ('sck', ms, 'EOF'))
+            sck('b', [stream], ('sck', ms, 'EOF'))
+            sck('a', ms, ('sck', ms, 'EOF'))
+            sck('b', ms, ('sck', ms, 'EOF'))
+    for _ in range(40 if quick else 3000):
+        ms = [rng.choice(msgs_pool) for _ in range(1 + rng.below(5))]
+        stream = b''.join(ms)
+        ch = partitions(rng, rng.choice([2, 3, 5, 9]), stream, rng.choice(['two', 'n', 'n', 'n']))
+        sck(rng.choice('ab'), ch, ('sck', ms, 'EOF'))
+    for _ in range(4 if quick else 60):
+        ms = [rng.choice(msgs_pool[:3]) for _ in range(1 + rng.below(2))]
+        sck(rng.choice('ab'), partitions(rng, 0, b''.join(ms), 'one'), ('sck', ms, 'EOF'))
+    for _ in range(30 if quick else 2000):
+        ms = [rng.choice(msgs_pool) for _ in range(rng.below(4))]
+        last = rng.choice(msgs_pool)
+        cut = 1 + rng.below(len(last) - 1)
+        stream = b''.join(ms) + last[:cut]
+        ch = partitions(rng, rng.choice([1, 2, 3]), stream, rng.choice(['two', 'n']))
+        sck(rng.choice('ab'), ch, ('sck', ms, 'E'))
+    for _ in range(30 if quick else 2000):
+        ms = [rng.choice(msgs_pool) for _ in range(rng.below(3))]
+        k = rng.below(3)
+        if k == 0:
+            junk = MARKER + struct.pack('>HB', rng.below(19), 4) + bytes(rng.below(30))
+        elif k == 1:
+            junk = bytearray(rng.choice(msgs_pool)); junk[rng.below(16)] = rng.below(255); junk = bytes(junk)
+        else:
+            junk = bytes(rng.below(256) for _ in range(1 + rng.below(70)))
+        ch = partitions(rng, rng.choice([1, 2, 3]), b''.join(ms) + junk, rng.choice(['two', 'n']))
+        sck(rng.choice('ab'), ch, ('sckjunk', ms))
     path = os.path.join(d, 'cases.txt')
     with open(path, 'w') as f:
         f.write('\n'.join(lines) + '\n')
@@ -97,6 +138,19 @@ def run(ctx):
             want = '%s rest=0' % ','.join(x.hex() for x in m[1])
             if body != want:
                 ctx.violation('the messages extracted differ from the messages sent (each once, in order, nothing left)', case=lines[i][:600],
+                              impl=body[:300], want=want[:300])
+        elif m[0] == 'sck':
+            stats['socket_cases'] = stats.get('socket_cases', 0) + 1
+            want = '%s end=%s' % (','.join(x.hex() for x in m[1]), m[2])
+            if body != want:
+                ctx.violation('the socket reader did not deliver the messages sent (each once, in order, then the close; an error for a '
+                              'stream cut inside a message)', case=lines[i][:600], impl=body[:300], want=want[:300])
+        elif m[0] == 'sckjunk':
+            stats['socket_cases'] = stats.get('socket_cases', 0) + 1
+            want = ','.join(x.hex() for x in m[1])
+            got = body.rsplit(' end=', 1)
+            if not got[0].startswith(want) or got[1] not in ('E', 'EOF'):
+                ctx.violation('the socket reader lost a good message ahead of the octets that do not frame, or did not end', case=lines[i][:600],
                               impl=body[:300], want=want[:300])
         elif m[0] == 'badlen':
             stats['badlen'] += 1
@@ -124,7 +178,9 @@ def run(ctx):
         'evaluations': len(lines),
         'distinct_nontrivial': len(set(lines)),
         'rule': 'streams of 1..5 messages (KEEPALIVE, UPDATE, NOTIFICATION, OPENs) cut at every split point, into one-octet reads, random '
-                'partitions, with empty reads; every length value 0..39 and a sweep of the rest (all 65536 in the thorough tier) in a header '
+                'partitions, with empty reads; the same streams through the socket and Connection::read_frame (all messages coalesced into one write '
+                'with the close straight behind, every message its own write, one-octet writes, random partitions, streams cut inside a message, '
+                'junk behind good messages); every length value 0..39 and a sweep of the rest (all 65536 in the thorough tier) in a header '
                 'after a good message, for the extractor and for read_message; wrong markers, illegal types, arbitrary octets; extraction judged '
                 'against the messages sent; plus model = implementation',
         'input_distribution': stats,
